@@ -178,6 +178,9 @@ M = [
     ('C08', 'PubKeyV4.parse', 'pgpy.packet.packets', "        pend = self.header.length - 6\n        self.keymaterial.parse(packet[:pend])", "        pend = self.header.length - 5\n        self.keymaterial.parse(packet[:pend])"),
     ('C08', 'PubKeyV4.parse', 'pgpy.packet.packets', "        self.keymaterial.parse(packet[:pend])\n        del packet[:pend]\n\n\nclass PrivKeyV4", "        self.keymaterial.parse(packet)\n\n\nclass PrivKeyV4"),
     ('C08', 'PubKeyV4.parse', 'pgpy.packet.packets', "            (True, PubKeyAlgorithm.DSA): DSAPub,", "            (True, PubKeyAlgorithm.DSA): RSAPub,"),
+    ('C02', 'PGPKey.revoker', 'pgpy.pgp', "        prefs['revocable'] = False\n        return self._sign(self, sig, **prefs)", "        return self._sign(self, sig, **prefs)"),
+    ('C02', 'PGPKey.revoker', 'pgpy.pgp', "                                         algorithm=revoker.key_algorithm,\n                                         fingerprint=revoker.fingerprint,", "                                         algorithm=self.key_algorithm,\n                                         fingerprint=revoker.fingerprint,"),
+    ('C02', 'PGPKey.revoker[sens', 'pgpy.pgp', "        keyclass = RevocationKeyClass.Normal | (RevocationKeyClass.Sensitive if sensitive else 0x00)", "        keyclass = RevocationKeyClass.Normal"),
 ]
 
 
